@@ -1,5 +1,6 @@
 """Gen.Dec / Gen.Enc: decision kernels and orchestration of src/munged/dec.c and enc.c, translated by
 ktrans from clang's typed AST, plus the constants they depend on (compile-and-print probe)."""
+import os
 from .probe import run_probe
 from .ktrans import translate_kernels
 from ..vlib.leanlib import gen_write
@@ -272,6 +273,27 @@ def pack_layout(ctx, fn):
     return out
 
 
+CONF_FILES = ["src/munged/enc.c", "src/munged/dec.c", "src/munged/cred.c", "src/munged/zip.c", "src/munged/cipher.c", "src/munged/base64.c",
+              "src/common/mac.c", "src/common/md.c", "src/libcommon/m_msg.c"]
+
+
+def conf_reads(ctx):
+    """Which fields of the daemon's configuration the credential pipeline's source files mention (`conf->field`), per file,
+    sorted.  The model's `Conf` structure and the harness's `cred conf` op carry exactly these; a new dependence of the
+    pipeline on a configuration switch (e.g. a mode flag) changes this generated table and breaks `conf_reads_as_modelled`."""
+    import re
+    out = []
+    for rel in CONF_FILES:
+        try:
+            src = open(os.path.join(ctx.repo, rel)).read()
+        except OSError as e:
+            ctx.obligation("gen", "configuration fields read by %s extracted" % rel, False, str(e))
+            return None
+        src = re.sub(r"/\*.*?\*/", " ", src, flags=re.S)
+        out.append((rel.split("/")[-1], sorted(set(re.findall(r"\bconf\s*->\s*([A-Za-z_0-9]+)", src)))))
+    return out
+
+
 def generate(ctx):
     prims = probe_prims(ctx)
     kv = probe_consts(ctx)
@@ -302,6 +324,12 @@ def generate(ctx):
                           for c, t in sites[fn])
         rows.append('  ("%s", [%s])' % (fn, items))
     body += ",\n".join(rows) + "]\n\n"
+    cr = conf_reads(ctx)
+    if cr is None:
+        return False
+    body += "/-- per source file of the credential pipeline: the `conf->field`s it mentions -/\n"
+    body += "def confReads : List (String × List String) := [\n%s]\n\n" % ",\n".join(
+        '  ("%s", [%s])' % (f, ", ".join('"%s"' % x for x in fs)) for f, fs in cr)
     for fn in ("enc_pack_outer", "enc_pack_inner"):
         lay = pack_layout(ctx, fn)
         if lay is None:
